@@ -134,10 +134,11 @@ def make_body(job):
           check('unwrap.first-failure', (not out.successful()) and out.exception is firstfail.exc)
           if firstfail is not levels[0]: cover('unwrap-inner-failure')
     elif op == 'continue':
-      src = AsyncResult(); ok = bool(choose('ok', 2)); pre = bool(choose('pre', 2)); raises = bool(choose('raises', 2))
+      src = AsyncResult(); ok = bool(choose('ok', 2)); pre = bool(choose('pre', 2)); raises = choose('raises', 3)
       on_hub = bool(choose('on_hub', 2))
       calls = []
-      boom = Exception('boom'); e0 = Exception('src')
+      boom = Exception('boom') if raises != 2 else gevent.Timeout(1)      # a time-out raised inside the continuation
+      e0 = Exception('src')
       def fire():
         if ok: src.set(5)
         else: src.set_exception(e0)
